@@ -239,12 +239,15 @@ def r3(F, R):
         b = bs[0]
         sw = {}
         rw = {}
+        timed = []
         for bb, t in b.calls():
             p = strip_generics(t["callee"].get("path", ""))
             if p.endswith("SyncSender::send") or p.endswith("Sender::send"):
                 sw[bb] = sw.get(bb, 0) + 1
-            if p.endswith("Receiver::recv") or p.endswith("Receiver::recv_timeout"):
+            if p.endswith("Receiver::recv"):
                 rw[bb] = rw.get(bb, 0) + 1
+            if p.endswith(("Receiver::recv_timeout", "Receiver::try_recv", "Receiver::recv_deadline")):
+                timed.append(loc(t["span"]))
         key = "Sampler::%s" % m
         site = "%s @%s" % (b.path, b.loc())
         rs = K.path_count_range(b, sw)
@@ -252,7 +255,10 @@ def r3(F, R):
         from .c05 import agg_blocks
         oks = [x[0] for x in agg_blocks(b, "Result", "Ok")]
         ok_dom = oks and all(any(b.dominates(r0, o) for r0 in rw) for o in oks) and all(any(b.dominates(s0, r0) for s0 in sw) for r0 in rw)
-        if rs == (1, 1) and rr is not None and rr[1] == 1 and ok_dom:
+        if timed:
+            R.bad("C11-R3", key, site, "the response is awaited with a bounded wait (%s): after a timeout the controller is still blocked handing over that response, "
+                  "so every later request (and abort) blocks forever - the rendezvous needs the blocking recv()" % ", ".join(timed))
+        elif rs == (1, 1) and rr is not None and rr[1] == 1 and ok_dom:
             R.ok("C11-R3", key, site, "one send on every path; one recv after it dominates the Ok return")
         else:
             R.bad("C11-R3", key, site, "sends per path %s, receives per path %s, Ok return dominated by recv after send: %s (a request without its response, or a "
